@@ -174,6 +174,13 @@ def run(res):
     # model and with an independent recomputation of the bins
     for r in fw.run_parallel(C19.scene_case, [dict(seed=res.seed + 3, idx=i, quick=True) for i in range(24 if quick else 240)]):
         res.absorb(r)
+    # time of flight through the patch-to-patch legs, coarse resolutions (pairs closer than one bin):
+    # C03's scenes compare the patch histograms bin by bin with an independently written solver
+    import props.C03 as C03
+    c3 = [dict(seed=res.seed + 11, idx=4 * i + 2, kind=("poly" if i % 2 else "box"), max_patches=(16 if quick else 30))
+          for i in range(6 if quick else 80)]
+    for r in fw.run_parallel(C03.scene_case, c3):
+        res.absorb(r)
     import props.C01 as C01
     for r in fw.run_parallel(C01.kernel_case, [dict(seed=res.seed + 1, idx=i) for i in range(30 if quick else 400)]):
         res.absorb(r)
@@ -191,7 +198,10 @@ def replay(res, payload):
         case = f.get("case", {})
         import props.C19 as C19
         import props.C01 as C01
-        if "mode" in case:
+        if "shape" in case and "kind" in case:
+            import props.C03 as C03
+            res.absorb(C03.scene_case(dict(seed=case["seed"], idx=case["idx"], kind=case["kind"], max_patches=30)))
+        elif "mode" in case:
             res.absorb(scene_case(dict(seed=case["seed"], idx=case["idx"], mode=case["mode"], max_patches=36)))
         elif case.get("witness"):
             res.absorb(wrap_witness({}))
